@@ -89,6 +89,14 @@ theorem store_htonl (e : Endian) (x : Nat) : nativeBytes e 4 (htonl e x) = beByt
   rw [beBytes_length] at this
   exact this
 
+/-- a native load determines the bytes loaded -/
+theorem nativeVal_inj (e : Endian) (a b : List Nat) (hl : a.length = b.length) (ha : Bytes a) (hb : Bytes b)
+    (h : nativeVal e a = nativeVal e b) : a = b := by
+  have h1 := nativeBytes_nativeVal e a ha
+  have h2 := nativeBytes_nativeVal e b hb
+  rw [h, hl] at h1
+  rw [← h1, h2]
+
 theorem bytes_append {a b : List Nat} (ha : Bytes a) (hb : Bytes b) : Bytes (a ++ b) := by
   intro x hx
   rcases List.mem_append.mp hx with h | h
